@@ -17,7 +17,7 @@ Theorem C08_resolution_sound : forall hs Hsz inflate crc32 ext pack objs sum,
   parse hs Hsz inflate crc32 ext pack = Some (objs, sum) ->
   exists es, scan_pack hs Hsz inflate crc32 pack = Some (es, sum) /\
   forall o, In o objs ->
-    Resolves hs Hsz es ext (r_off o) (r_type o) (r_content o) /\
+    Resolves hs Hsz es ext (r_off o) (r_type o) (r_content o) (r_depth o) /\
     r_id o = obj_id hs Hsz (r_type o) (blen (r_content o)) (r_content o).
 Proof.
   intros hs Hsz inflate crc32 ext pack objs sum E.
@@ -41,14 +41,59 @@ Theorem C08_resolution_unique : forall hs Hsz inflate crc32 ext pack es sum,
   scan_pack hs Hsz inflate crc32 pack = Some (es, sum) ->
   NoDup (map oh_off es) /\
   (store_ok hs Hsz ext -> no_collision hs Hsz es ext ->
-   forall off t c t' c', Resolves hs Hsz es ext off t c -> Resolves hs Hsz es ext off t' c' -> t = t' /\ c = c').
+   forall off t c d t' c' d', Resolves hs Hsz es ext off t c d -> Resolves hs Hsz es ext off t' c' d' -> t = t' /\ c = c').
 Proof.
   intros hs Hsz inflate crc32 ext pack es sum E.
   pose proof (scan_pack_offsets hs Hsz inflate crc32 pack es sum E) as Hnd.
-  split; [exact Hnd|]. intros Hst Hnc off t c t' c' R R'.
-  exact (resolves_functional hs Hsz es ext Hnd Hst Hnc off t c R t' c' R').
+  split; [exact Hnd|]. intros Hst Hnc off t c d t' c' d' R R'.
+  exact (resolves_functional hs Hsz es ext Hnd Hst Hnc off t c d R t' c' d' R').
 Qed.
 Print Assumptions C08_resolution_unique.
+
+(* C08_depth_boundary: the chain-depth rule at its exact boundary.  The limit is the constant
+   regenerated from the source (maxDeltaChainDepth = 4095, git's own --depth maximum).
+   (rule)     checkDeltaChainDepth, on the uncached and on the cached path alike, takes a delta whose
+              parent has depth pd iff pd + 1 <= maxDeltaChainDepth;
+   (walk)     resolving a chain of n links on a whole object link by link succeeds iff n <= maxDeltaChainDepth
+              ([chain_walk], the model expression of the suite's 4094/4095/4096-link packs);
+   (link)     so the link completing a chain of exactly maxDeltaChainDepth is taken — its object gets
+              that depth — and the link after it is refused;
+   (accepted) in an accepted pack every object's [r_depth] is the number of links of its chain
+              ([Resolves] counts them) and is at most maxDeltaChainDepth;
+   (rejected) a pack holding a chain of more than maxDeltaChainDepth OFS links is never accepted,
+              for any chain and any order of the walk (the scanner's offsets are distinct, so the chain
+              under an offset has one length). *)
+Theorem C08_depth_boundary :
+  MAX_DEPTH = 4095 /\
+  (forall pd, chain_depth pd = if pd + 1 <=? MAX_DEPTH then Some (pd + 1) else None) /\
+  (forall n, chain_walk n 0 = if N.of_nat n <=? MAX_DEPTH then Some (N.of_nat n) else None) /\
+  (forall hs Hsz ext s d p, oh_type d = TOfs -> by_offset s (oh_base_off d) = Some p ->
+     (MAX_DEPTH < r_depth p + 1 -> process_delta hs Hsz ext s d = None) /\
+     (r_depth p + 1 <= MAX_DEPTH -> oh_data d <> [] ->
+      forall tsz out, apply_delta (r_content p) (oh_data d) = Some (tsz, out) ->
+      exists s' o, process_delta hs Hsz ext s d = Some s' /\ by_offset s' (oh_off d) = Some o /\
+                   r_depth o = r_depth p + 1 /\ r_content o = out)) /\
+  (forall hs Hsz inflate crc32 ext pack objs sum,
+     parse hs Hsz inflate crc32 ext pack = Some (objs, sum) ->
+     exists es, scan_pack hs Hsz inflate crc32 pack = Some (es, sum) /\
+     forall o, In o objs -> Resolves hs Hsz es ext (r_off o) (r_type o) (r_content o) (r_depth o) /\
+                            r_depth o <= MAX_DEPTH) /\
+  (forall hs Hsz inflate crc32 ext pack es sum off n,
+     scan_pack hs Hsz inflate crc32 pack = Some (es, sum) ->
+     OfsChain es off n -> MAX_DEPTH < n ->
+     parse hs Hsz inflate crc32 ext pack = None).
+Proof.
+  split; [reflexivity|]. split; [intros pd; exact (chain_depth_spec 0%nat (fun _ b => b) pd)|].
+  split; [exact chain_walk_spec|].
+  split; [intros hs Hsz ext s d p; exact (process_delta_ofs_depth hs Hsz (fun _ => None) (fun _ => 0) ext s d p)|].
+  split.
+  - intros hs Hsz inflate crc32 ext pack objs sum E.
+    destruct (parse_sound hs Hsz inflate crc32 ext pack objs sum E) as (es & Es & Ho).
+    exists es. split; [exact Es|]. intros o Hin. destruct (Ho o Hin) as (_ & _ & B & D). split; assumption.
+  - intros hs Hsz inflate crc32 ext pack es sum off n.
+    exact (deep_chain_rejected hs Hsz inflate crc32 ext pack es sum off n).
+Qed.
+Print Assumptions C08_depth_boundary.
 
 (* C08_idx_is_git: for every list of (id, offset, crc) the observer receives (ids of the format's
    size, 64-bit offsets, 32-bit CRCs, fewer than 2^31 objects), Writer.createIndex + Encode write
